@@ -1034,11 +1034,30 @@ def _generate_structure_virtual_field_methods(enclosing_type_name, field_ir, ir)
             ir,
             field_reader=_VirtualViewFieldRenderer(),
         ).rendered
+        # The inverse transform is computed in C++ types chosen for values of
+        # the virtual field's inferred range; values outside that range must be
+        # refused before the transform is applied, or they wrap.
+        if field_ir.read_transform.type.which_type == "integer":
+            value_in_range = (
+                "emboss_reserved_local_value >= static_cast</**/{0}>({1}) && "
+                "emboss_reserved_local_value <= static_cast</**/{0}>({2})".format(
+                    logical_type,
+                    _render_integer(
+                        int(field_ir.read_transform.type.integer.minimum_value)
+                    ),
+                    _render_integer(
+                        int(field_ir.read_transform.type.integer.maximum_value)
+                    ),
+                )
+            )
+        else:
+            value_in_range = "true"
         write_methods = code_template.format_template(
             _TEMPLATES.structure_single_virtual_field_write_methods,
             logical_type=logical_type,
             destination=destination,
             transform=transform,
+            value_in_range=value_in_range,
         )
     else:
         write_methods = ""
